@@ -12,16 +12,11 @@ Quirks of the code are kept (marked Q):
     `{{if index $.CtxParamMap .}}`; de8bb02: a body verb without a struct parameter sends no body,
     `{{if and $p (in $httpmethod $.BodyHTTPMethods)}}` — and the model follows the fixed code.)
  Q3 a pointer-to-struct parameter of a query verb is dereferenced unguarded (`req.Name`);
- Q4 `strings.Replace(path_, "{k}", v, 1)` runs once per placeholder on the already substituted
-    text, so a value containing `{later}` is rewritten by a later replacement;
  Q5 `for k, v := range m` over a `*map[…]…` parameter does not compile;
- Q6 only the last map parameter becomes the query dictionary;
- Q7 a qualified non-struct type (time.Duration) is treated as the body parameter, so on a query verb
-    it is dropped;
- Q9 `isStructType` looks for the struct declaration in the file of the interface only: a parameter whose
-    struct type is declared in ANOTHER file of the package is treated as a scalar (`%v` of the struct
-    under the parameter's name; no body);
- Q10 the kv pattern `{([\w|-]+)\W*:\W*([^}]+)}` lets `\W*` eat leading punctuation of a value (and `}{` after it);
+ (Q4, Q6, Q7, Q9, Q10 were repaired in /repo — 0b978c0: two or more placeholders are replaced by one
+    `strings.NewReplacer(…).Replace`; 9050c53: every map parameter is ranged over; d8a8443: a qualified
+    non-struct type is a scalar; 05e7f66: a struct is recognised through go/types wherever it is declared;
+    98e0bbb: the kv pattern uses `\s*` around the colon — and the model follows.)
  (Q8 — `reversMap` filled from a Go map, two parameters with the same alias ⇒ map order — was repaired by
     62d8144: such a directive is now a Fatal, and the model follows.)
 -/
@@ -205,16 +200,17 @@ def parsePath (doc : List Char) : PathRes :=
       .ok ⟨v, p', placeholders p'⟩
     else .fatal
 
-/-! ## parseKV: all matches of `{([\w|-]+)\W*:\W*([^}]+)}`
+/-! ## parseKV: all matches of `{([\w|-]+)\s*:\s*([^}]+)}` (`\s` = `[\t\n\f\r ]`)
 
-Exact leftmost-first semantics. At a `{`: the key is the maximal run of `[\w|-]` (a shorter key
-never helps: what it gives back are `|`/`-`, which the following `\W*` would have to take again).
-Then, with `N` the maximal run of non-word characters and `rest` what follows it: the first `\W*`
-ends just before a `:` of `N`, the LAST one being tried first; the second `\W*` takes a prefix of
-what is left of `N`, the longest being tried first; the value is everything up to the next `}`,
-which must exist and leave the value non-empty. -/
+Exact leftmost-first semantics. At a `{`: the key is the maximal run of `[\w|-]` (a shorter key never
+helps: what it gives back are key characters, which `\s*` cannot take). Then all blanks, a `:`, and —
+with `S` the maximal run of blanks after it — the second `\s*` takes a prefix of `S`, the longest being
+tried first; the value is everything up to the next `}`, which must exist and leave the value
+non-empty. -/
 
 def isKeyChar (c : Char) : Bool := isWord c || c == '|' || c == '-'
+
+def isReSpace (c : Char) : Bool := c == ' ' || c == '\t' || c == '\n' || c == '\r' || c == '\x0c'
 
 /-- `([^}]+)}` at the start of `t`: value and remainder -/
 def kvValueAt (t : List Char) : Option (List Char × List Char) :=
@@ -222,7 +218,7 @@ def kvValueAt (t : List Char) : Option (List Char × List Char) :=
   | '}' :: rest => if (t.takeWhile (· != '}')).isEmpty then none else some (t.takeWhile (· != '}'), rest)
   | _ => none
 
-/-- second `\W*` then the value: `n2Rev` = the part of the non-word run still skipped (reversed),
+/-- second `\s*` then the value: `n2Rev` = the part of the blank run still skipped (reversed),
     `given` = what has been given back to the value so far -/
 def kvAfterColon : (n2Rev given rest : List Char) → Option (List Char × List Char)
   | n2Rev, given, rest =>
@@ -233,25 +229,17 @@ def kvAfterColon : (n2Rev given rest : List Char) → Option (List Char × List 
       | [] => none
       | c :: more => kvAfterColon more (c :: given) rest
 
-/-- first `\W*` then `:`: `nRev` = the part of the run not yet examined (reversed), `after` = the part behind -/
-def kvColons : (nRev after rest : List Char) → Option (List Char × List Char)
-  | [], _, _ => none
-  | c :: more, after, rest =>
-    if c == ':' then
-      match kvAfterColon after.reverse [] rest with
-      | some r => some r
-      | none => kvColons more (c :: after) rest
-    else kvColons more (c :: after) rest
-
 /-- one attempt right after a `{`: key, value and the rest after the closing `}` -/
 def matchKV (s : List Char) : Option (List Char × List Char × List Char) :=
   let key := s.takeWhile isKeyChar
   if key.isEmpty then none
   else
-    let r := s.dropWhile isKeyChar
-    match kvColons (r.takeWhile (fun c => !isWord c)).reverse [] (r.dropWhile (fun c => !isWord c)) with
-    | some (v, rest) => some (key, v, rest)
-    | none => none
+    match (s.dropWhile isKeyChar).dropWhile isReSpace with
+    | ':' :: r =>
+      match kvAfterColon (r.takeWhile isReSpace).reverse [] (r.dropWhile isReSpace) with
+      | some (v, rest) => some (key, v, rest)
+      | none => none
+    | _ => none
 
 def parseKVAux : Nat → List Char → List (List Char × List Char)
   | 0, _ => []
@@ -298,8 +286,6 @@ def parseAlias (doc : List Char) : Option (List (List Char × List Char)) :=
   (firstAtLineStart matchAliasAt true doc).map parseKV
 
 /-! ## parseHeaders: `shoot:.*?\Wheaders=((?:\s*{[^\n]+},?)+)` (not anchored, `\s` = `[\t\n\f\r ]`) -/
-
-def isReSpace (c : Char) : Bool := c == ' ' || c == '\t' || c == '\n' || c == '\r' || c == '\x0c'
 
 /-- one round `\s*{[^\n]+},?` at the start of `t`: the greedy `[^\n]+` ends at the LAST `}` of the line
     (with at least one character before it). Result: the text consumed and the remainder -/
@@ -405,9 +391,8 @@ structure Field where
 inductive PKind where
   | ctx                               -- selector, named context.Context
   | scalar                            -- identifier that is not a struct declared in the same file
-  | struct (fields : List Field)      -- identifier of a struct in the same file, or a qualified named struct
-  | structElsewhere (fields : List Field)  -- identifier of a struct declared in another file of the package: seen as a scalar (Q9)
-  | qualOther                         -- qualified named non-struct type (time.Duration): treated like a struct without fields (Q7)
+  | struct (fields : List Field)      -- a named struct type (of this package, any file, or qualified)
+  | qualOther                         -- qualified named non-struct type (time.Duration): an ordinary scalar
   | dict                              -- map type
   | unsupported                       -- slice, func, array, …: Fatal
   deriving Repr, DecidableEq, Inhabited
@@ -455,7 +440,7 @@ structure Cooked where
   aliasMap : List (Expr × String)              -- AliasMap[m] (starts as the directive's map)
   isPtr : List (Expr × Bool) := []             -- IsParamPtrMap[m]
   body : Option String := none                 -- BodyParamMap[m]
-  dict : Option String := none                 -- QueryDictMap[m]
+  dict : List String := []                     -- QueryDictMap[m]
   ctx : Option String := none                  -- CtxParamMap[m]
   deriving Repr, DecidableEq
 
@@ -484,13 +469,12 @@ def setBody (st : Cooked) (p : String) : Except CookErr Cooked :=
 def handleParam (verb : Verb) (pathParams : List String) (st : Cooked) (p : Param) : Except CookErr Cooked := do
   let st ← match p.kind with
     | .ctx => pure { st with ctx := some p.name }
-    | .scalar | .structElsewhere _ =>
+    | .scalar | .qualOther =>
       pure (if pathParams.contains p.name then st else { st with query := st.query ++ [.param p.name] })
     | .struct fs => do
       let st ← setBody st p.name
       pure (handleStruct st p.name fs)
-    | .qualOther => setBody st p.name
-    | .dict => pure (if verb.hasBody then st else { st with dict := some p.name })
+    | .dict => pure (if verb.hasBody then st else { st with dict := st.dict ++ [p.name] })
     | .unsupported => throw .unsupportedParam
   pure (if p.ptr then { st with isPtr := setKV st.isPtr (.param p.name) true } else st)
 
@@ -539,7 +523,7 @@ structure Plan where
   path : List Char
   subs : List PathSub
   queryOps : List QueryOp
-  dict : Option String
+  dict : List String
   dictIsPtr : Bool
   body : Option String
   ctx : CtxMode
@@ -613,11 +597,9 @@ def planOf (hs : List (String × String)) (name : String)
   let ctx := match c.ctx with
     | some p => CtxMode.param p
     | none => CtxMode.background
-  let dictPtr := match c.dict with
-    | some p => (getKV c.isPtr (.param p)).getD false
-    | none => false
+  let dictPtr := c.dict.any (fun p => (getKV c.isPtr (.param p)).getD false)
   ⟨name, d.verb, d.path, subs, if d.verb.hasBody then [] else queryOpsOf c,
-    if d.verb.hasBody then none else c.dict, dictPtr, c.body, ctx, headersFor hs d.verb⟩
+    if d.verb.hasBody then [] else c.dict, dictPtr, c.body, ctx, headersFor hs d.verb⟩
 
 def cookedOk (m : Method) : Bool := match cookMethod m with | .ok .. => true | _ => false
 
@@ -630,7 +612,7 @@ def generate (i : Iface) : GenRes :=
     let names := (i.methods.filter cookedOk).map (·.name)
     let plans := (cooked.zip names).map (fun (x, name) => planOf hs name x.1 x.2.1 x.2.2)
     -- Q5: range over a pointer to a map; a skipped method leaves the interface unimplemented
-    let bad := plans.any (fun p => p.dict.isSome && p.dictIsPtr)
+    let bad := plans.any (fun p => !p.dict.isEmpty && p.dictIsPtr)
     .ok plans (!bad && plans.length == i.methods.length)
 
 /-! ## the emitted method body up to `c.client.Do(req_)` -/
@@ -644,8 +626,6 @@ inductive Val where
 inductive Arg where
   | scalar (v : Val)                                         -- scalar or pointer to scalar
   | struct (isNil : Bool) (fields : List (String × Val))     -- struct / pointer to struct (isNil: nil pointer)
-  | structV (isNil : Bool) (fields : List (String × Val)) (fmt : List Char)
-      -- the same for a struct type declared in another file, with what `%v` prints for the value (Q9)
   | dict (entries : List (String × List Char))               -- map[string]T, any order (keys unique)
   | ctx (tag : String)
   deriving Repr, DecidableEq, Inhabited
@@ -658,7 +638,6 @@ def evalExpr (args : Args) : Expr → Option Val
   | .param p =>
     match getKV args p with
     | some (.scalar v) => some v
-    | some (.structV false _ t) => some (.txt t)
     | _ => some .nilPtr
   | .field p f _ =>
     match getKV args p with
@@ -679,9 +658,27 @@ def argText (args : Args) (p : String) : List Char :=
   | some (.scalar (.txt s)) => s
   | _ => []
 
-/-- template lines 23-31 -/
+/-- `strings.NewReplacer(old₁, new₁, …).Replace(s)`: one pass; at each position the first pair (in
+    argument order) whose `old` is a prefix is replaced and the scan continues behind it; no re-scan -/
+def replaceAllAux (pairs : List (List Char × List Char)) : Nat → List Char → List Char
+  | 0, s => s
+  | _, [] => []
+  | fuel + 1, c :: cs =>
+    match firstSome (fun (kv : List Char × List Char) => (stripPrefix kv.1 (c :: cs)).map (fun rest => (kv.2, rest))) pairs with
+    | some (new, rest) => new ++ replaceAllAux pairs fuel rest
+    | none => c :: replaceAllAux pairs fuel cs
+
+def replaceAll (pairs : List (List Char × List Char)) (s : List Char) : List Char :=
+  replaceAllAux pairs (s.length + 1) s
+
+def subPair (args : Args) (s : PathSub) : List Char × List Char :=
+  ('{' :: (s.key.toList ++ ['}']), argText args s.param)
+
+/-- template lines 23-40: two or more placeholders: one `strings.NewReplacer(…).Replace(path_)`;
+    one: `strings.Replace(path_, "{k}", v, 1)` -/
 def substPath (args : Args) (path : List Char) (subs : List PathSub) : List Char :=
-  subs.foldl (fun path s => replaceFirst ('{' :: (s.key.toList ++ ['}'])) (argText args s.param) path) path
+  if subs.length > 1 then replaceAll (subs.map (subPair args)) path
+  else subs.foldl (fun path s => replaceFirst (subPair args s).1 (subPair args s).2 path) path
 
 /-- the `query_.Set` statements that execute, in order; `none` = panic -/
 def runQueryOps (args : Args) : List QueryOp → Option (List (String × List Char))
@@ -697,12 +694,13 @@ def runQueryOps (args : Args) : List QueryOp → Option (List (String × List Ch
         | .nilPtr => some sets                         -- `if e != nil { … }` (unguarded never holds nil)
         | .txt s => some ((op.key, s) :: sets)
 
-def dictSets (args : Args) : Option String → List (String × List Char)
-  | none => []
-  | some p =>
-    match getKV args p with
-    | some (.dict es) => es
-    | _ => []
+def dictOne (args : Args) (p : String) : List (String × List Char) :=
+  match getKV args p with
+  | some (.dict es) => es
+  | _ => []
+
+/-- `for k, v := range d { query_.Set(k, …) }` for every map parameter, in order -/
+def dictSets (args : Args) (ds : List String) : List (String × List Char) := ds.flatMap (dictOne args)
 
 structure Request where
   verb : String
@@ -729,7 +727,7 @@ def ctxTag (args : Args) : CtxMode → Option String
 def send (pl : Plan) (args : Args) : Outcome :=
   let path := substPath args pl.path pl.subs
   let body := if pl.verb.hasBody then pl.body else none
-  if pl.verb.hasBody || (pl.queryOps.isEmpty && pl.dict.isNone) then
+  if pl.verb.hasBody || (pl.queryOps.isEmpty && pl.dict.isEmpty) then
     .sent ⟨pl.verb.upper, path, none, body, pl.headers, ctxTag args pl.ctx⟩
   else
     match runQueryOps args pl.queryOps with
